@@ -113,6 +113,7 @@ type Result struct {
 	Events       []map[string]any `json:"events"`
 	Tries        int              `json:"tries"`
 	Ms           int64            `json:"ms"`
+	LockMs       int64            `json:"lock_ms"`
 }
 
 // ---------------------------------------------------------------------------------------------
@@ -470,7 +471,14 @@ func (cc *caseCtx) tlsServe(conn net.Conn, o *Obs) {
 	cc.mu.Unlock()
 	if err == nil && ts.ConnectionState().NegotiatedProtocol == "h2" {
 		// answer the DoH request so that net/http does not keep re-dialling
-		(&http2.Server{}).ServeConn(ts, &http2.ServeConnOpts{Handler: http.HandlerFunc(dohReply)})
+		(&http2.Server{}).ServeConn(ts, &http2.ServeConnOpts{Handler: http.HandlerFunc(func(w http.ResponseWriter, r *http.Request) {
+			dohReply(w, r)
+			// the DoH client keeps idle connections; hang up soon after the reply went out
+			go func() {
+				time.Sleep(40 * time.Millisecond)
+				ts.Close()
+			}()
+		})})
 	}
 	ts.Close()
 }
@@ -789,8 +797,10 @@ func runOnce(c Case, timeout time.Duration, try int) (res Result) {
 	case "loop":
 		usesV6 := (cc.urlIP.IsValid() && cc.urlIP.Is6()) || (cc.dialIP.IsValid() && cc.dialIP.Is6())
 		if usesV6 {
+			tl := time.Now()
 			v6Mu.Lock()
 			defer v6Mu.Unlock()
+			res.LockMs = time.Since(tl).Milliseconds()
 		}
 		var targets []target
 		if cc.urlIP.IsValid() {
@@ -911,7 +921,7 @@ func runCase(c Case, timeout time.Duration) (res Result) {
 	if c.Unasserted {
 		timeout = time.Second
 	}
-	for try := 1; try <= 3; try++ {
+	for try := 1; try <= 2; try++ {
 		res = runOnce(c, timeout, try)
 		if res.Skipped != "" {
 			return res
@@ -922,7 +932,6 @@ func runCase(c Case, timeout time.Duration) (res Result) {
 		if res.Inconclusive == "" && !(res.Created && len(res.Obs) == 0) {
 			break
 		}
-		timeout *= 2
 	}
 	ev := []map[string]any{{"ev": "Case", "a": c.A}}
 	switch {
